@@ -54,6 +54,8 @@ if __name__ == "__main__":
     E["fixed-C04-clone-drops-unsaved"] = ("C04", [{"op": "init", "source": "sample:table.odt", "how": "path", "salt": 0}, {"op": "add_file", "via": "pathobj", "content": 2}, {"op": "clone_swap"}, SAVE()], "pass")
     E["C04-empty-dir-entry-after-del_part"] = ("C04", [{"op": "init", "source": "sample:md_style.odt", "how": "path", "salt": 0}, {"op": "edit", "kind": "image", "n": 1}, {"op": "del_part", "name": "Pictures/ceddccf10506d07cc0990639e79f8c72.png"}, SAVE()], "violation")
     E["C03-rdf-default-after-torn-source"] = ("C03", [{"op": "init", "source": "sample:pagebreak.odt", "how": "path", "salt": 0}, SAVE(target="inplace", fault={"site": "writestr", "k": 1, "errno": "EACCES", "partial": False}), SAVE(target="path")], "violation")
+    E["C11-pretty-inline-tail-indent"] = ("C11", [{"op": "init", "source": "template:text"}, {"op": "rich_para", "xml": "<text:p>alpha<text:tab/><text:span text:style-name=\"T1\">beta</text:span></text:p>"}, {"op": "save_set", "variants": [{"packaging": "zip", "pretty": True, "target": "bytesio"}]}], "violation")
+    E["fixed-C11-pretty-save-edits-memory"] = ("C11", [{"op": "init", "source": "sample:list.odt", "how": "path", "salt": 0}, {"op": "save_set", "variants": [{"packaging": "folder", "pretty": None, "target": "path"}]}], "pass")
     for fid, (prop, ops, expect) in E.items():
         if which and fid not in which:
             continue
